@@ -150,6 +150,19 @@ def cases(tier, seed):
             kw.append(["nested", fn(op, fn("neg", cs[0]), cs[1])])
         yield f"{op}{fams}", prog(tbl, kw, f"{op}{fams}")
 
+    # type-variable operators with a computed (generic Int) first operand and a Float later operand: exactly one overload
+    # (S = Float) applies, whichever side the float is on
+    tbl = table_for(("int", "float"))
+    a, b = cols(("int", "float"))
+    ie = fn("add", a, lit(1))
+    cnt = fn("str.len", fn("add", {"k": "cast", "e": a, "to": "String"}, lit("x")))
+    kw = [["eq_if", fn("eq", ie, b)], ["ne_if", fn("ne", ie, b)], ["eq_fi", fn("eq", b, ie)], ["eq_il", fn("eq", ie, lit(2.0))],
+          ["coalesce_if", fn("coalesce", ie, b)], ["coalesce_il", fn("coalesce", ie, lit(0.5))], ["coalesce_fi", fn("coalesce", b, ie)],
+          ["fill_il", fn("fill_null", ie, lit(0.5))], ["fill_if", fn("fill_null", ie, b)], ["is_in_il", fn("is_in", ie, lit(2.0), lit(0.5))],
+          ["is_in_if", fn("is_in", ie, b, lit(4.0))], ["len_eq_f", fn("eq", cnt, b)], ["len_fill", fn("fill_null", cnt, lit(1.5))],
+          ["hmax_if", fn("hmax", ie, b)], ["case_if", {"k": "case", "cases": [[fn("gt", a, lit(0)), ie]], "default": b}]]
+    yield "tyvar:int_expr_first,float_later", prog(tbl, kw, "tyvar mixed int/float")
+
     # clip: x.clip(lo, hi) == max(min(x, hi), lo) for non-null x
     for f, lo, hi in (("int", -3, 7), ("int", 0, 0), ("float", -0.75, 2.25), ("str", "a", "b"), ("date", "2020-02-29", "2021-07-15")):
         tbl = table_for((f,))
